@@ -457,6 +457,24 @@ func (p *Parser) parseSimpleExpression() (Node, error) {
 			return nil, err
 		}
 
+		// Item access binds tighter than a unary operator: -xs[1] is -(xs[1])
+		for p.tokenIndex < len(p.tokens) &&
+			p.tokens[p.tokenIndex].Type == TOKEN_PUNCTUATION &&
+			p.tokens[p.tokenIndex].Value == "[" {
+			p.tokenIndex++
+			indexExpr, err := p.parseExpression()
+			if err != nil {
+				return nil, err
+			}
+			if p.tokenIndex >= len(p.tokens) ||
+				p.tokens[p.tokenIndex].Type != TOKEN_PUNCTUATION ||
+				p.tokens[p.tokenIndex].Value != "]" {
+				return nil, fmt.Errorf("expected closing bracket after array index at line %d", line)
+			}
+			p.tokenIndex++
+			operand = NewGetItemNode(operand, indexExpr, line)
+		}
+
 		// Create a unary node
 		return NewUnaryNode(operator, operand, line), nil
 	}
